@@ -18,6 +18,8 @@ import time
 import traceback
 
 VERIF = os.path.dirname(os.path.dirname(os.path.abspath(__file__)))
+# scratch runs (mutant screening against a copy of the repository) write their evidence and replays elsewhere
+OUT = os.environ.get("VERIF_OUT") or VERIF
 KNOWN_FINDINGS = os.path.join(VERIF, "known_findings.json")
 MAX_FAIL_PER_SIG = 3
 WORKERS = int(os.environ.get("VERIF_WORKERS", "0")) or min(16, os.cpu_count() or 1)
@@ -184,7 +186,7 @@ def write_replay(pid, failure):
     body.update(failure)
     text = json.dumps(body, indent=1, sort_keys=True, ensure_ascii=True)
     digest = hashlib.sha1(json.dumps([failure["sig"], failure["case"]], sort_keys=True).encode("utf-8")).hexdigest()[:16]
-    folder = os.path.join(VERIF, "replays", pid)
+    folder = os.path.join(OUT, "replays", pid)
     os.makedirs(folder, exist_ok=True)
     path = os.path.join(folder, digest + ".json")
     with open(path, "w", encoding="utf-8") as replay_file:
@@ -302,7 +304,7 @@ def write_evidence(ctx, module, violation_count, known_hits):
         "wall_s": round(wall, 2),
         "violations": violation_count,
     }
-    folder = os.path.join(VERIF, "evidence")
+    folder = os.path.join(OUT, "evidence")
     os.makedirs(folder, exist_ok=True)
     path = os.path.join(folder, ctx.pid + ".json")
     temporary = path + ".tmp%d" % os.getpid()
